@@ -6,14 +6,9 @@
    space) are exactly two of the recorded round-trip findings. *)
 From Coq Require Import ZArith List Bool Lia.
 From Mistletoe Require Import Base.Sx Base.PyStr Base.PyText Gen.GenTables Gen.GenConfig Model.Tree Model.CoreTokens Model.Block Model.Build
-     Model.MarkdownRenderer Model.Parser Proofs.PlainProse Proofs.Prose Proofs.ListLaw Proofs.FenceLaw Spec.Fragment Proofs.FragmentP Proofs.FragmentDoc.
+     Model.MarkdownRenderer Model.Parser Proofs.PlainProse Proofs.Prose Proofs.ListLaw Proofs.FenceLaw Spec.Fragment Proofs.FragmentP Proofs.FragmentDoc Proofs.FragmentHtml.
 Import ListNotations.
 Local Open Scope Z_scope.
-
-(* a structured line without its newline *)
-Definition bare (l : sline) : str := match l with SBlank => [] | SLine k c body => repeat 32 k ++ c :: body end.
-Lemma render_bare l : render_line l = bare l ++ [10].
-Proof. destruct l as [|k c body]; [reflexivity|]. cbn [render_line bare]. unfold line_of. rewrite <- app_assoc. reflexivity. Qed.
 
 Lemma is_space_same c : is_space c = is_space_c c.
 Proof. reflexivity. Qed.
@@ -258,6 +253,12 @@ Proof.
   unfold render_md. cbn [is_block block_lines flat_map]. rewrite app_nil_r.
   destruct (rt_all (depth t) t (le_n _) Hw Hr) as [E _]. unfold md_lines in E. rewrite E. apply render_lines_bare.
 Qed.
+
+(* ... and from ONE string, as MarkdownRenderer().render(Document(text)) *)
+Theorem fragment_round_trip_text t :
+  wf_b t = true -> rt_ok t = true -> one_string_ok t = true ->
+  render_md (mkMopts false) None (fst (fst (parse_document cfg_markdown (concat (text_of (spell t)))))) = concat (text_of (spell t)).
+Proof. intros Hw Hr H1. unfold parse_document. rewrite (doc_lines_spelled t H1). apply fragment_round_trip; assumption. Qed.
 
 (* non-vacuity, and the two side conditions are needed: without them the statement is false *)
 Example round_trip_instance :
